@@ -362,11 +362,45 @@ def r4_escaping(cx):
     cx.require(len(rets) == 1 and U(rets[0].value) == "quote + value + quote", rets[0] if rets else sf, "the escaped value is wrapped in the chosen quote", construct=short(rets[0]) if rets else "(none)")
 
 
+RY = "insights.client.apps.ansible.playbook_verifier.contrib.ruamel_yaml.ruamel.yaml.comments"
+
+
+def r2b_faithful_copy(cx):
+    """The digest is computed over copy.deepcopy(play) with the dynamic elements removed, and the play is a tree of the vendored loader's CommentedMap /
+    CommentedSeq.  What their __deepcopy__ leaves out never reaches the hash: the copy must carry every key the mapping exposes (keys merged in through
+    '<<' are ordinary entries of the mapping) and every element of a sequence."""
+    cx.rule("C18.R2", "the digest is computed over the serialisation of the whole cleaned play", floor=4)
+    try:
+        m = cx.repo.module(RY)
+    except AnalysisError:
+        cx.unknown(None, "the vendored YAML loader module %s is gone" % RY)
+        return
+    for cn, how in (("CommentedMap", "key"), ("CommentedSeq", "element")):
+        c = m.cls(cn, "C18.R2")
+        dc = [f for f in c.body if isinstance(f, FUNC_TYPES) and f.name == "__deepcopy__"]
+        if not dc:
+            cx.ok(c, "%s has no __deepcopy__ of its own (the generic deep copy carries everything)" % cn, construct="class %s" % cn)
+            continue
+        fn = dc[0]
+        loops = [l for l in walk_body(fn.body) if isinstance(l, ast.For)]
+        full = [l for l in loops if U(l.iter) in ("self", "self.keys()", "self.items()", "list(self)", "ordereddict.__iter__(self)", "list.__iter__(self)", "enumerate(self)")
+                and not [x for x in walk_body(l.body) if isinstance(x, (ast.Break, ast.Continue, ast.Return, ast.If))]
+                and any(isinstance(x, ast.Call) and call_name(x) == "copy.deepcopy" for x in ast.walk(l))]
+        if full:
+            cx.ok(full[0], "%s.__deepcopy__ copies every %s the container exposes" % (cn, how), construct=short(full[0], 80))
+        elif loops:
+            cx.bad(loops[0], "%s.__deepcopy__ copies every %s the container exposes (a filtered or partial view - own keys only, say - drops the rest from the signed digest)" % (cn, how),
+                   construct="for ... in %s" % U(loops[0].iter))
+        else:
+            cx.unknown(fn, "cannot find the copying loop of %s.__deepcopy__" % cn)
+
+
 def run(cx):
     cx.extra["explanation"] = ("C18: guard rules on every deletion of exclude_dynamic_elements (depth, label, copy, error fall-through), def-use of the digest input from the whole cleaned play "
                                "to sha256 and gpg.verify_data, dominance of signature / verification / revocation checks over 'return play', taint of every interpolated value in the serializer.")
     cx.undecided = ["injectivity of the serialisation as a function on all plays (beyond 'every string is escaped')", "GPG itself", "the Python < 3.12 branch serialises with str(play) (ruamel's repr), not analysed"]
     cx.guard(r1_exclusion)
     cx.guard(r2_digest_input)
+    cx.guard(r2b_faithful_copy)
     cx.guard(r3_checks_dominate)
     cx.guard(r4_escaping)
